@@ -322,37 +322,56 @@ def soft (r : R Rat) : R Val :=
   | .error .nonfinite => .ok none
   | .error e => .error e
 
-/-- `t0 t1 tEnd`: first, second and last index entries in nanoseconds -/
-def performanceMetrics (o : Orc) (t0 t1 tEnd : Int) (values : List Rat) (rf : Rat) (bench : Option (List Rat)) : R Perf := do
-  if values.length < 2 then throw .index
+/-- benchmark part, after `alpha_beta`: `benchmark.iloc[0]`, `iloc[-1]`, `return_rate`, `annualized_return` -/
+def perfBenchRest (o : Orc) (d : Rat) (b : List Rat) (alpha beta : Val) : R (Val × Val × Val × Val) :=
+  if b.length = 0 then .error .index else
+  let b0 := nth b 0
+  let bl := nth b (b.length - 1)
+  match soft (returnRate b0 bl), soft (annualizedReturn o .compound d { init := some b0, final := some bl }) with
+  | .ok br, .ok ba => .ok (alpha, beta, br, ba)
+  | .error e, _ => .error e
+  | _, .error e => .error e
+
+/-- `(alpha, beta, benchmark_return, benchmark_apr)`; all nan without a benchmark -/
+def perfBench (o : Orc) (values : List Rat) (d : Rat) (bench : Option (List Rat)) : R (Val × Val × Val × Val) :=
+  match bench with
+  | none => .ok (none, none, none, none)
+  | some b =>
+    match alphaBeta o values b d with
+    | .ok (a, be) => perfBenchRest o d b (some a) (some be)
+    | .error .nonfinite => perfBenchRest o d b none none
+    | .error e => .error e
+
+/-- `values.pct_change().dropna()` is the ratio series minus one; then `volatility` -/
+def perfVolatility (o : Orc) (values : List Rat) (interval : Rat) : R Rat :=
+  match allSome (shiftRatios values) with
+  | none => if interval = 0 then .error .zeroDiv else .error .nonfinite
+  | some rs => volatility o (rs.map (· - 1)) interval
+
+/-- `performance_metrics`; `t0 t1 tEnd`: first, second and last index entries in nanoseconds.  The entries are
+    evaluated in the code's order, the first exception aborts the call. -/
+def performanceMetrics (o : Orc) (t0 t1 tEnd : Int) (values : List Rat) (rf : Rat) (bench : Option (List Rat)) : R Perf :=
+  if values.length < 2 then .error .index else
   let init := nth values 0
   let final := nth values (values.length - 1)
   let interval : Int := t1 - t0
   let intervalInDay : Rat := (interval : Rat) / Gen.metricsNsPerSec / Gen.metricsSecPerDay
   let durationInDay : Rat := ((tEnd - t0 + interval : Int) : Rat) / Gen.metricsNsPerSec / Gen.metricsSecPerDay
-  let (alpha, beta, bRate, bApr) ← (match bench with
-    | none => pure (none, none, none, none)
-    | some b => do
-      let ab ← (match alphaBeta o values b durationInDay with
-        | .ok (a, b) => pure (some a, some b)
-        | .error .nonfinite => pure (none, none)
-        | .error e => throw e : R (Val × Val))
-      if b.length = 0 then throw .index
-      let b0 := nth b 0
-      let bl := nth b (b.length - 1)
-      let br ← soft (returnRate b0 bl)
-      let ba ← soft (annualizedReturn o .compound durationInDay { init := some b0, final := some bl })
-      pure (ab.1, ab.2, br, ba) : R (Val × Val × Val × Val))
-  let rr ← soft (returnRate init final)
-  let ann ← soft (annualizedReturn o .compound durationInDay { init := some init, final := some final })
-  let mdd ← soft (maxDrawDown values)
-  let sh ← soft (sharpeRatio o intervalInDay durationInDay values rf)
-  -- `values.pct_change().dropna()` = the ratio series minus one
-  let vol ← soft (match allSome (shiftRatios values) with
-    | none => if intervalInDay = 0 then .error .zeroDiv else .error .nonfinite
-    | some rs => volatility o (rs.map (· - 1)) intervalInDay)
-  pure { startVal := init, endVal := final, intervalInDay := intervalInDay, durationInDay := durationInDay,
-         returnValue := returnValue init final, returnRate := rr, annualized := ann, mdd := mdd, sharpe := sh,
-         volatility := vol, alpha := alpha, beta := beta, benchRate := bRate, benchApr := bApr }
+  match perfBench o values durationInDay bench,
+        soft (returnRate init final),
+        soft (annualizedReturn o .compound durationInDay { init := some init, final := some final }),
+        soft (maxDrawDown values),
+        soft (sharpeRatio o intervalInDay durationInDay values rf),
+        soft (perfVolatility o values intervalInDay) with
+  | .ok (alpha, beta, bRate, bApr), .ok rr, .ok ann, .ok mdd, .ok sh, .ok vol =>
+    .ok { startVal := init, endVal := final, intervalInDay := intervalInDay, durationInDay := durationInDay,
+          returnValue := returnValue init final, returnRate := rr, annualized := ann, mdd := mdd, sharpe := sh,
+          volatility := vol, alpha := alpha, beta := beta, benchRate := bRate, benchApr := bApr }
+  | .error e, _, _, _, _, _ => .error e
+  | _, .error e, _, _, _, _ => .error e
+  | _, _, .error e, _, _, _ => .error e
+  | _, _, _, .error e, _, _ => .error e
+  | _, _, _, _, .error e, _ => .error e
+  | _, _, _, _, _, .error e => .error e
 
 end Demeter.Metrics
